@@ -470,9 +470,13 @@ def loop_stmt(draw, env, depth, followed):
     env.loops.append(name)
     try:
         cfg = env.cfg
-        shape = draw(st.sampled_from(["case-else-break", "case-break", "if-break", "body-then-case"]))
+        shape = draw(st.sampled_from(["case-else-break", "case-break", "if-break", "body-then-case"] + ([] if followed else ["bare", "bare"])))
         if shape == "if-break" and not (cfg.allow_last or env.ints):
             shape = "case-else-break"
+        if shape == "bare":
+            # a loop that is never left (legal as the last statement): body must consume
+            b = draw(body(env, depth, 1, 3, allow_terminal=False))
+            return ("loop", name, b)
         if shape in ("case-else-break", "case-break", "body-then-case"):
             pre = ()
             if shape == "body-then-case":
